@@ -235,7 +235,7 @@ theorem linked_unit_label (s s' : DState) (p : Path) (i t dn : Nat) (iv : List I
     (hk : kindOf s.g dn = kDimRange) (hfresh : s.g.node? s.g.nextKey = none) :
     readDimAttr s' dn "unit" = .ok (s'.g.getAttr t "unit") ∧
       readDimAttr s' dn "label" = .ok (s'.g.getAttr t "label") := by
-  obtain ⟨hlinked, _, _, _, hkind⟩ := linkDataArray_linked hl hdn (Or.inl hk) hfresh
+  obtain ⟨hlinked, _, _, _, hkind, _⟩ := linkDataArray_linked hl hdn (Or.inl hk) hfresh
   rw [hk] at hkind
   exact ⟨readDimAttr_linked hlinked hkind _, readDimAttr_linked hlinked hkind _⟩
 
@@ -275,7 +275,7 @@ theorem link_replaces_ticks (s s' : DState) (p : Path) (i t dn : Nat) (iv : List
 theorem ticks_replace_link (s s' : DState) (p : Path) (i dn : Nat) (ts : List Rat)
     (h : setTicks s p i ts = .ok s') (hdn : dimAt s p i = .ok dn) :
     hasLink s'.g dn = false ∧ readTicks s' dn = .ok ts ∧ descending ts = false := by
-  obtain ⟨_, h2, h3, _, h5⟩ := setTicks_spec h hdn
+  obtain ⟨_, h2, h3, _, h5, _⟩ := setTicks_spec h hdn
   exact ⟨h3, h5, h2⟩
 
 /-- explicit ticks and a link exclude each other after either replacing operation -/
@@ -290,12 +290,42 @@ theorem ticks_link_exclusive (s s' : DState) (p : Path) (i dn : Nat) (hdn : dimA
   · have := (ticks_replace_link s s' p i dn ts ht hdn).1
     rw [this] at h2; cases h2
 
+/-- the invariant "no range dimension anywhere in the file carries both explicit ticks and a
+link" is kept by every operation that writes ticks or links or data (for ALL descriptors of the
+file, not only the one operated on) -/
+theorem ticks_link_exclusive_invariant (s s' : DState) (hex : Excl s) (hfresh : s.g.node? s.g.nextKey = none)
+    (h : (∃ p i ts, setTicks s p i ts = .ok s') ∨
+         (∃ p i t iv, linkDataArray s p i t iv = .ok s' ∧ ∀ dn, dimAt s p i = .ok dn →
+            kindOf s.g dn = kDimRange ∨ kindOf s.g dn = kDimSet ∨ kindOf s.g dn = kDimSample) ∨
+         (∃ p i, removeLink s p i = .ok s') ∨ (∃ q vals, writeData s q vals = .ok s')) : Excl s' := by
+  rcases h with ⟨p, i, ts, h⟩ | ⟨p, i, t, iv, h, hk⟩ | ⟨p, i, h⟩ | ⟨q, vals, h⟩
+  · exact excl_setTicks hex h
+  · exact excl_linkDataArray hex hfresh hk h
+  · exact excl_removeLink hex h
+  · exact excl_writeData hex h
+
+/-- it holds in the empty file -/
+theorem ticks_link_exclusive_init : Excl initD := by
+  intro dn hk
+  exfalso
+  have h0 : ∀ a, initD.g.getAttr dn a = none := by
+    intro a
+    unfold Graph.getAttr Graph.node?
+    by_cases h : dn = 0
+    · subst h; rfl
+    · have : ((0 : Nat) == dn) = false := by simpa using fun e => h e.symm
+      simp [initD, List.find?, this]
+  unfold kindOf at hk
+  rw [h0] at hk
+  revert hk
+  decide
+
 /-- The reachable-state form: in every state reached by dimension and structural operations no
-range dimension has both ticks and a link.  `ticks_link_exclusive` proves the step for the two
-operations that write either; lifting it to all histories additionally needs the frame facts that
-structural operations never add children to a dimension group and that descriptor names are
-`1..n` (so `append_*_dimension` always makes a new group) — kept as a statement, checked on every
-HDF5-level dump of the correspondence run. -/
+range dimension has both ticks and a link.  `ticks_link_exclusive_invariant` proves the step for
+the operations that write ticks, links and data; lifting it to all histories additionally needs
+the frame facts that structural operations never add children to a dimension group and that
+descriptor names are `1..n` (so `append_*_dimension` always makes a new group) — kept as a
+statement, checked on every `dim_read` / HDF5-level dump of the correspondence run. -/
 def ExclusiveInvariant : Prop :=
   ∀ ops : List DOp, ∀ dn, kindOf (runD initD ops).g dn = kDimRange →
     ¬ ((runD initD ops).g.hasChild dn "ticks" = true ∧ hasLink (runD initD ops).g dn = true)
